@@ -88,6 +88,34 @@ def genuine(ex, text, start, end):
     return bool(core.fullmatch(text, start, end)) and (start == 0 or ok(text[start - 1])) and (end == len(text) or ok(text[end]))
 
 
+def _shared_boundary(text, k, B, extractors):
+    """Is the reference candidate k = (type, start, end, text, ...) one that Hyperscan reports with an earlier start
+    because two matches of ONE pattern share a boundary character?  Decided with Python's re alone: find the
+    extractor and the finditer match that produced k, re-offer the boundary character that the previous match of the
+    same pattern consumed, and see whether the pattern then matches with an earlier start and the same end - and
+    whether that is what Hyperscan reported.  Returns (which optional part, Hyperscan's candidate) or None."""
+    name, s_, e_ = k[0], k[1], k[2]
+    low = text.lower()
+    for ex in extractors:
+        if ex.constructor.__self__.__name__ != name:
+            continue
+        if ex.strings and not any((st_.lower() if ex.flags & re.I else st_) in (low if ex.flags & re.I else text) for st_ in ex.strings):
+            continue
+        prev = None
+        for m in ex.compiled_regex.finditer(text):
+            if m.span(1) == (s_, e_):
+                if prev is not None and prev.end() > prev.end(1) and prev.end() - 1 < s_:
+                    m2 = ex.compiled_regex.match(text, prev.end() - 1)
+                    if m2 and m2.end(1) == e_ and m2.start(1) < s_:
+                        cand = (name, m2.start(1), e_, text[m2.start(1):e_])
+                        if any(b[:4] == cand for b in B):
+                            part = "space" if text[m2.start(1):s_] == " " else ("volume" if (m2.groupdict().get("volume") and not m.groupdict().get("volume")) else "part")
+                            return part, cand
+                break
+            prev = m
+    return None
+
+
 def evaluate(case):
     if case.get("kind") == "fault":
         return eval_fault(case)
@@ -115,11 +143,12 @@ def evaluate(case):
         adj = (st_ > 0 and ord(text[st_ - 1]) > 127) or (en < len(text) and ord(text[en]) > 127)
         mb_adjacent = mb_adjacent or adj
         if k not in B:
-            shifted = (k[0], k[1] - 1, k[2], " " + k[3])
-            if k[1] > 0 and text[k[1] - 1] == " " and any(b[:4] == shifted for b in B):
-                # the same match, reported by Hyperscan with the optional leading space of its template because the
-                # boundary character in front of it was consumed by the previous match of the same pattern
-                res.v(f"candidate-shifted:shared-boundary-optional-space:{k[0]}", f"reference candidate {k[:4]} is reported by Hyperscan as {shifted} in {text!r}")
+            sb = _shared_boundary(text, k, B, ref.extractors)
+            if sb:
+                # the same match, reported by Hyperscan with an optional leading part of its template (a blank, a volume)
+                # that the reference could not take because the boundary character in front of it was consumed as the
+                # trailing boundary of the previous match of the same pattern (finditer never re-offers a character)
+                res.v(f"candidate-shifted:shared-boundary-optional-{sb[0]}:{k[0]}", f"reference candidate {k[:4]} is reported by Hyperscan as {sb[1]} in {text!r}")
             else:
                 res.v(f"candidate-missing:{k[0]}:{'multibyte-neighbour' if adj else 'ascii-neighbour'}", f"reference candidate {k[:4]} not reported by Hyperscan in {text!r}")
     extras = [k for k in B if k not in A]
